@@ -606,7 +606,7 @@ Section Decoder.
     | O => Err E_FUEL
     | S d =>
       match nth_error sc mi with
-      | None => Err E_FUEL
+      | None => Err E_NOMODEL
       | Some m => ploop (parse d sc) (S (Z.to_nat (r_len r))) m ic (init_pst m) (-1)%Z r
       end
     end.
